@@ -292,8 +292,10 @@ register("C09", {
             "{1,2,3,None}, max_keepalive_connections in {0,1,2,3,None}, keepalive_expiry in "
             "{None,0,0.05,5}, HTTP/1.1 and HTTP/2, both clock-tick modes; all runs non-trivial; "
             "distinct = event-log digest; plus 2-5 concurrent callers (asyncio shuffle, threads "
-            "with line pre-emption) under a configuration in which no permitted reason for "
-            "closing can arise: any connection closed before the pool is a violation",
+            "with line pre-emption) under a configuration in which the only permitted reason "
+            "for closing is keep-alive expiry: a connection closed before the pool is must "
+            "have seen no byte move for keepalive_expiry (asyncio; with threads and with no "
+            "expiry configured: no close at all), and no request may fail",
     "assumptions": ["the oracle is a set of constraints (reuse, idle bound, no use after expiry "
                     "or server close, every idle close has a permitted reason), not a replica of "
                     "the eviction policy; at the exact expiry instant either behaviour is accepted"],
